@@ -234,8 +234,14 @@ func propC11(c *Ctx) {
 		}
 	}
 
-	ros := c.Rule("own-storage", "the instruction stream stored into a converted function is storage built by that conversion, never a buffer shared between conversions", 1)
-	ruleOwnStorage(c, ros, convSSA)
+	ros := c.Rule("own-storage", "the instruction stream stored into a converted function (anywhere in the version 1 code) is storage built by that conversion, never a buffer, cache entry or stream shared between conversions", 1)
+	var v1all []*ssa.Function
+	for _, fn := range l.RepoFuncs(func(pp string) bool { return pp == encPath }) {
+		if d := l.DeclOfSSA(fn); d != nil && strings.HasSuffix(l.Fset.Position(d.Pos()).Filename, "/v1.go") {
+			v1all = append(v1all, fn)
+		}
+	}
+	ruleOwnStorage(c, ros, convSSA, v1all...)
 
 	rcf := c.Rule("copy-all-fields", "a decoder that publishes a Bytecode field by field copies every field (file set included, or positions are lost)", 0)
 	ruleCopyAllFields(c, rcf)
